@@ -70,6 +70,10 @@ struct Machine {
 
   Machine(uint64_t k_, MODULE_TYPE mt_, unsigned mask_, Chooser& c) : k(k_), n(1ull << k_), mt(mt_), mask(mask_), ch(c) {
     mod = spq::modules().get(n, mt, mask);
+    // half of the programs lay all their objects out back to back in one region (packed up / down), the other half put every
+    // buffer alone between guard pages / canaries
+    uint64_t pk = ch.below(4);
+    if (pk >= 2) ar.set_packed(pk == 2 ? +1 : -1);
   }
   size_t dl() const { return spq::dft_limb_bytes(mt, n); }
   size_t bl() const { return spq::big_limb_bytes(mt, n); }
